@@ -37,6 +37,17 @@ func startWorker() *worker {
 
 func (w *worker) kill() {
 	w.in.Close()
+	if os.Getenv("VERIF_GRACEFUL") != "" {
+		// development aid (statement-coverage runs of the harness): let a healthy worker end by itself
+		// so that its coverage counters are written
+		done := make(chan struct{})
+		go func() { w.cmd.Wait(); close(done) }()
+		select {
+		case <-done:
+			return
+		case <-time.After(3 * time.Second):
+		}
+	}
 	w.cmd.Process.Kill()
 	w.cmd.Wait()
 }
